@@ -701,7 +701,7 @@ func (o *operation) reportError(err error) {
 	httpErr.EncodeHeaders(o.writer.Header())
 	connErr := asConnectError(err)
 	end := &responseEnd{err: connErr, httpCode: httpErr.code}
-	code := o.client.protocol.addProtocolResponseHeaders(responseMeta{end: end}, o.writer.Header())
+	code := o.client.protocol.addProtocolResponseHeaders(responseMeta{end: end, codec: o.client.codec.Name()}, o.writer.Header())
 	o.writer.WriteHeader(code)
 	trailers := o.client.protocol.encodeEnd(o, end, o.writer, true)
 	httpMergeTrailers(o.writer.Header(), trailers)
